@@ -174,7 +174,13 @@ def job(payload):
         out["n"] += 1
         if txt not in seen:
             seen.add(txt)
-        bad, info = check_case(d, prog, stacks, rng.getrandbits(32))
+        try:
+            bad, info = check_case(d, prog, stacks, rng.getrandbits(32))
+        except common.DriverCrash as e:
+            bad, info = [("crash:" + getattr(e, "key", e.kind), dict(text=txt, request=e.request[:1500], report=e.report[-3000:]))], {}
+            out["bad"].append(bad[0]); continue
+        except common.DriverTimeout as e:
+            out["bad"].append(("hang", dict(text=txt, request=e.request[:1500]))); continue
         for k in ("o1", "o1_skipped", "o2", "fuel"):
             out[k] += info.get(k, 0)
         if info.get("nres", 0) > 1 or zast.size(prog) >= 4:
